@@ -135,24 +135,7 @@ def run(tier):
                 neff += 1
                 rep.check(st.canon(sn.d['ctx']) == ctx, 'R17.2', 'send-ctx|%s' % sn.d['fn'], '%s transmits on context %s, not the one the frame arrived on' % (sn.d['fn'], sn.d['ctx']),
                           function=sn.d['fn'], file=fnf)
-    # the list of records stays intact: no path of the frame handler rewrites a record's link to the other interfaces' records
-    # or the context it is keyed by (a record wiped as a whole takes every record behind it off the list)
-    from .dispatch import Summary
-    from .frame_common import record_field
-    keyf = [record_field(fs.srec, r)[0] for r in ('next', 'iface_ctx')]
-    nlink = 0
-    for region, outs in sorted(res.items()):
-        for st, ret in outs:
-            if st.objs.get('st') is None:
-                continue
-            nlink += 1
-            touched = [f for f in Summary(fs, region, st, ret).changed_fields(()) if f in keyf]
-            rep.check(not touched, 'R17.4', 'record-link|%s' % region,
-                      'a path of the frame handler (cell %s) rewrites %s of the interface record: the records of other interfaces linked behind it are cut off the list '
-                      '(their state is lost, their next frame starts from a blank record) or the record changes owner' % (region, ' and '.join(touched)),
-                      function='parseFrame', file=fnf)
-    if nlink == 0:
-        rep.broke('no final state of parseFrame carries the interface record')
+    record_link_rule(rep, 'R17.4', fs, res, fnf)
     # ---- R17.3 lockset over the daemons that parse here
     daemons = [('systemd', 'os/linux/daemon/linux-main.c'), ('embedded', 'os/linux/daemon/linux-embedded-main.c')]
     analysed = []
@@ -317,3 +300,24 @@ def reachable(prog, ix, start):
                 if c and c not in out:
                     work.append((dix, c))
     return out
+
+
+def record_link_rule(rep, rule, fs, res, fnf='lltdResponder/lltdBlock.c'):
+    """The list of records stays intact: no path of the frame handler rewrites a record's link to the other interfaces' records
+    or the context it is keyed by (a record wiped as a whole takes every record behind it off the list)."""
+    from .dispatch import Summary
+    from .frame_common import record_field
+    keyf = [record_field(fs.srec, r)[0] for r in ('next', 'iface_ctx')]
+    nlink = 0
+    for region, outs in sorted(res.items()):
+        for st, ret in outs:
+            if st.objs.get('st') is None:
+                continue
+            nlink += 1
+            touched = [f for f in Summary(fs, region, st, ret).changed_fields(()) if f in keyf]
+            rep.check(not touched, rule, 'record-link|%s' % region,
+                      'a path of the frame handler (cell %s) rewrites %s of the interface record: the records of other interfaces linked behind it are cut off the list '
+                      '(their state is lost and never released, their next frame starts from a blank record) or the record changes owner' % (region, ' and '.join(touched)),
+                      function='parseFrame', file=fnf)
+    if nlink == 0:
+        rep.broke('no final state of parseFrame carries the interface record')
